@@ -29,7 +29,8 @@ def main():
     res["confirmed"]["diffstat"] = t.stdout.strip()
     t = sh(f"cd {wt} && PYTHONPATH={wt}/src /venv/bin/python -m pytest -q -p no:cacheprovider 2>&1 | tail -1")
     res["confirmed"]["suite_with_change"] = t.stdout.strip()
-    d0 = sh(f"PYTHONPATH=/repo/src /venv/bin/python -W ignore {out}/demo.py", cwd="/tmp")
+    base = os.environ.get("SEED_BASE", "/repo")
+    d0 = sh(f"PYTHONPATH={base}/src /venv/bin/python -W ignore {out}/demo.py", cwd="/tmp")
     d1 = sh(f"PYTHONPATH={wt}/src /venv/bin/python -W ignore {out}/demo.py", cwd="/tmp")
     res["confirmed"]["demo_on_original_exit"] = d0.returncode
     res["confirmed"]["demo_on_changed_exit"] = d1.returncode
